@@ -3,30 +3,56 @@ Model layer `Notice` (C18, part 3 at the sync manager): `p2p/syncmanager.go` beh
 `p2p/subproto/bp.go` (BlockProducedNotice), `block.go` (NewBlockNotice) and `getblock.go`
 (GetBlockResponse without a waiting receiver).
 
-The sync manager keeps one set of "seen" block identifiers (`blkCache`, an LRU of
-`DefaultGlobalBlockCacheSize` entries, `ContainsOrAdd`: a hit does not refresh the entry). The key is
-the identifier the *sender announces* (`block.GetHash()` / `data.BlockHash`); the content of a block
-is never looked at, so an arrival is described by that identifier and the outcome of the checks made
-before and after the set is consulted.
+The sync manager keeps one table of "seen" block identifiers (`blkCache`, an LRU of
+`DefaultGlobalBlockCacheSize` entries). The key is the identifier the *sender announces*
+(`block.GetHash()` / `data.BlockHash`). The value is a placeholder (put by a NewBlockNotice) or a
+digest of the whole content of the block a BlockProducedNotice carried (`blockContentDigest`,
+repair 27f3484f): a BlockProducedNotice is a duplicate only of a placeholder or of the very same
+content. `Get`/`Add` move the entry to the front, `ContainsOrAdd` does not refresh a hit.
+
+The header digest is never recomputed, so an arrival is described by the announced identifier, a
+token for its content (equal tokens = equal content; the harness computes it) and the outcome of the
+checks made around the table.
 -/
 namespace Aergo.Notice
 
 abbrev Bytes := List UInt8
 
-/-- `syncManager.blkCache`: most recently added first -/
-structure Seen where
-  cap : Nat
-  ids : List Bytes
+inductive Val
+  | placeholder            -- `cachePlaceHolder`
+  | digest (c : Bytes)     -- `blockContentDigest(block)`
 deriving Repr, DecidableEq
 
+/-- `syncManager.blkCache`: most recently used first -/
+structure Seen where
+  cap : Nat
+  ents : List (Bytes × Val)
+deriving Repr, DecidableEq
+
+def Seen.lookup (s : Seen) (id : Bytes) : Option Val := (s.ents.find? (·.1 == id)).map (·.2)
+
+/-- `lru.Cache.Add`: a present key gets the new value and moves to the front; a new key is put in
+front and the oldest entry is dropped when the table is full -/
+def Seen.add (s : Seen) (id : Bytes) (v : Val) : Seen :=
+  { s with ents := ((id, v) :: s.ents.filter (·.1 != id)).take s.cap }
+
+/-- `lru.Cache.Get`: a hit moves the entry to the front -/
+def Seen.get (s : Seen) (id : Bytes) : Option Val × Seen :=
+  match s.lookup id with
+  | none => (none, s)
+  | some v => (some v, { s with ents := (id, v) :: s.ents.filter (·.1 != id) })
+
 /-- `lru.Cache.ContainsOrAdd` -/
-def Seen.containsOrAdd (s : Seen) (id : Bytes) : Bool × Seen :=
-  if s.ids.contains id then (true, s) else (false, { s with ids := (id :: s.ids).take s.cap })
+def Seen.containsOrAdd (s : Seen) (id : Bytes) (v : Val) : Bool × Seen :=
+  match s.lookup id with
+  | some _ => (true, s)
+  | none => (false, s.add id v)
 
 inductive Arr
   /-- BlockProducedNotice: identifier field non-empty; 32 bytes long; `checkSender` (the peer is the
-  producer named by the header's public key, or its certified agent); `block.Size() ≤ MaxBlockSize` -/
-  | bp (id : Bytes) (present lenOK senderOK sizeOK : Bool)
+  producer named by the header's public key, or its certified agent); `block.Size() ≤ MaxBlockSize`;
+  content token -/
+  | bp (id : Bytes) (present lenOK senderOK sizeOK : Bool) (content : Bytes)
   /-- NewBlockNotice: identifier 32 bytes long; already in this peer's own notice cache
   (`RemotePeer.UpdateBlkCache`); the chain already has the block -/
   | nb (id : Bytes) (lenOK peerSeen chainHas : Bool)
@@ -40,33 +66,23 @@ inductive Act
   | request (id : Bytes)   -- `GetBlockInfos` back to the notifier
 deriving Repr, DecidableEq
 
-/-- does the arrival get as far as the seen set? -/
-def Arr.reaches : Arr → Bool
-  | .bp _ present lenOK senderOK _ => present && lenOK && senderOK
-  | .nb _ lenOK peerSeen _ => lenOK && !peerSeen
-  | .gbr _ _ => false
-
-/-- the identifier an arrival announces -/
-def Arr.id : Arr → Bytes
-  | .bp id _ _ _ _ => id
-  | .nb id _ _ _ => id
-  | .gbr _ _ => []
-
 /-- handler + sync manager for one arrival -/
 def step (s : Seen) (a : Arr) : Seen × Act :=
   match a with
-  | .bp id present lenOK senderOK sizeOK =>
-    if !(present && lenOK && senderOK) then (s, .nothing) else
-    let (was, s') := s.containsOrAdd id
-    if was then (s', .nothing)
-    else if !sizeOK then (s', .nothing)
-    else (s', .forward id)
+  | .bp id present lenOK senderOK sizeOK c =>
+    if !(present && lenOK && senderOK) then (s, .nothing)
+    else if !sizeOK then (s, .nothing)
+    else
+      match s.get id with
+      | (some v, s1) =>
+        if v == .placeholder || v == .digest c then (s1, .nothing)
+        else (s1.add id (.digest c), .forward id)
+      | (none, _) => (s.add id (.digest c), .forward id)
   | .nb id lenOK peerSeen chainHas =>
     if !(lenOK && !peerSeen) then (s, .nothing) else
-    let (was, s') := s.containsOrAdd id
-    if was then (s', .nothing)
-    else if chainHas then (s', .nothing)
-    else (s', .request id)
+    match s.containsOrAdd id .placeholder with
+    | (true, s') => (s', .nothing)
+    | (false, s') => if chainHas then (s', .nothing) else (s', .request id)
   | .gbr statusOK blocks =>
     if !statusOK then (s, .nothing) else
     match blocks with
@@ -77,8 +93,8 @@ def step (s : Seen) (a : Arr) : Seen × Act :=
 def run (s : Seen) : List Arr → Seen × List Act
   | [] => (s, [])
   | a :: as =>
-    let (s', x) := step s a
-    let (s'', xs) := run s' as
-    (s'', x :: xs)
+    let r := step s a
+    let rs := run r.1 as
+    (rs.1, r.2 :: rs.2)
 
 end Aergo.Notice
